@@ -1,7 +1,7 @@
 /* C03 differential harness: run one generated multi-module program under a chosen assignment of
    execution interfaces to link groups and print everything observable.
 
-   I <file> <opt> <groups> | <op> ; <op> ; ...
+   I <file> <opt>[f] <groups> | <op> ; <op> ; ...      (f: code pages from an allocator whose regions are > 2 GiB apart)
      groups = iface:m,m/iface:m ...   modules of a group are loaded, then MIR_link (iface) is called;
               iface = interp | mirinterp | gen | lazy | bb   (mirinterp: linked with the interpreter
               interface, entries called with MIR_interp_arr instead of through item->addr)
@@ -11,7 +11,26 @@
 */
 #include "c03_prog.h"
 
+#include <sys/mman.h>
 static char mod_iface[MAXMOD][16];
+
+/* A user code allocator (CUSTOM-ALLOCATORS.md) whose regions are far from each other: successive
+   mem_map calls alternate between two areas 8 GiB apart.  It satisfies the documented contract
+   (mem_map / mem_unmap / mem_protect as mmap / munmap / mprotect); nothing in the contract promises
+   that two regions are within reach of a rel32 displacement. */
+static long far_maps;
+static void *far_map (size_t len, void *ud) {
+  uintptr_t base = 0x200000000000ull + (uintptr_t) (far_maps % 2) * 0x200000000ull
+                   + (uintptr_t) (far_maps / 2) * 0x1000000ull;
+  far_maps++;
+  void *p = mmap ((void *) base, len, PROT_READ | PROT_EXEC, MAP_PRIVATE | MAP_ANONYMOUS | MAP_FIXED_NOREPLACE, -1, 0);
+  return p == (void *) -1 ? NULL : p;
+}
+static int far_unmap (void *p, size_t len, void *ud) { return munmap (p, len); }
+static int far_protect (void *p, size_t len, MIR_mem_protect_t prot, void *ud) {
+  return mprotect (p, len, prot == PROT_WRITE_EXEC ? PROT_WRITE | PROT_EXEC : PROT_READ | PROT_EXEC);
+}
+static struct MIR_code_alloc far_alloc = {far_map, far_unmap, far_protect, NULL};
 
 static int addr_check (void) {
   for (int i = 0; i < p_nfuncs; i++)
@@ -32,7 +51,8 @@ static void do_line (char *line) {
     printf ("BAD\n");
     return;
   }
-  ctx = MIR_init ();
+  /* <opt> with a trailing 'f' (e.g. "1f"): run with the far code allocator */
+  ctx = strchr (w[2], 'f') != NULL ? MIR_init2 (NULL, &far_alloc) : MIR_init ();
   MIR_set_error_func (ctx, prog_err_func);
   MIR_gen_init (ctx);
   trace_generator ();
